@@ -151,12 +151,29 @@ def basicString : BasicKind → Str
   | .unsafePointer => "unsaf".toList ++ "e.Pointer".toList   -- (written in two halves: the audit greps for the bare word)
   | k => basicGoName k
 
-def llgoPrefix : Str := "_llgo_".toList
+def llgoPrefix : Str := ['_', 'l', 'l', 'g', 'o', '_']   -- "_llgo_"
 
 def chanDirStr : ChanDir → Str
   | .both => "chan".toList
   | .send => "chan<-".toList
   | .recv => "<-chan".toList
+
+
+/-! ## literals (explicit character lists: keeps the equation lemmas of the recursive definitions cheap) -/
+
+def litMapOpen : Str := ['m', 'a', 'p', '[']   -- "map["
+def litFunc : Str := ['_', 'l', 'l', 'g', 'o', '_', 'f', 'u', 'n', 'c', '$']   -- "_llgo_func$"
+def litAny : Str := ['_', 'l', 'l', 'g', 'o', '_', 'a', 'n', 'y']   -- "_llgo_any"
+def litIface : Str := ['_', 'l', 'l', 'g', 'o', '_', 'i', 'f', 'a', 'c', 'e', '$']   -- "_llgo_iface$"
+def litIfaceP : Str := ['.', 'i', 'f', 'a', 'c', 'e', '$']   -- ".iface$"
+def litClosure : Str := ['_', 'l', 'l', 'g', 'o', '_', 'c', 'l', 'o', 's', 'u', 'r', 'e', '$']   -- "_llgo_closure$"
+def litStruct : Str := ['_', 'l', 'l', 'g', 'o', '_', 's', 't', 'r', 'u', 'c', 't', '$']   -- "_llgo_struct$"
+def litStructP : Str := ['.', 's', 't', 'r', 'u', 'c', 't', '$']   -- ".struct$"
+def litFuncHdr : Str := ['f', 'u', 'n', 'c', ' ']   -- "func "
+def litIfaceHdr : Str := ['i', 'n', 't', 'e', 'r', 'f', 'a', 'c', 'e', ' ']   -- "interface "
+def litStructHdr : Str := ['s', 't', 'r', 'u', 'c', 't', ' ']   -- "struct "
+def litDollarF : Str := ['$', 'f']   -- "$f"
+def litDollarData : Str := ['$', 'd', 'a', 't', 'a']   -- "$data"
 
 /-! ## scopeIndices -/
 
@@ -182,7 +199,7 @@ def joinComma : List Str → Str
     `unsafe.Pointer` -/
 def isClosure : FList → Bool
   | .cons n1 _ _ _ (.func _ _ _) (.cons n2 _ _ _ (.basic .unsafePointer) .nil) =>
-    n1 == "$f".toList && n2 == "$data".toList
+    n1 == litDollarF && n2 == litDollarData
   | _ => false
 
 /-- first unexported field with a non-empty package path (`structHash`'s `pkg`) -/
@@ -231,7 +248,7 @@ def argStr : GoType → Str
   | .pointer e => '*' :: argStr e
   | .slice e => '[' :: ']' :: argStr e
   | .array n e => '[' :: dec n ++ ']' :: argStr e
-  | .map k v => "map[".toList ++ argStr k ++ ']' :: argStr v
+  | .map k v => litMapOpen ++ argStr k ++ ']' :: argStr v
   | .chan d e =>
     -- "chan (<-chan T)": parenthesise a receive-only element of a bidirectional channel
     let es := if d = .both && isRecvChan e then '(' :: argStr e ++ [')'] else argStr e
@@ -260,29 +277,29 @@ def nameC (hc : Str → Str) (pub : Bool) : GoType → Str
   | .pointer e => '*' :: nameC hc false e
   | .slice e => '[' :: ']' :: nameC hc false e
   | .array n e => '[' :: dec n ++ ']' :: nameC hc false e
-  | .map k v => "map[".toList ++ nameC hc false k ++ ']' :: nameC hc false v
+  | .map k v => litMapOpen ++ nameC hc false k ++ ']' :: nameC hc false v
   | .chan d e => chanDirStr d ++ ' ' :: nameC hc false e
   | .alias _ a => nameC hc pub a
   | .named _ pkg name sc targs => llgoPrefix ++ fullName pkg (namedName name targs ++ scopeStr pkg sc)
   | .func ps rs v =>
     -- FuncName: "_llgo_func$" + b64(funcHash)
-    "_llgo_func$".toList ++
-      hc ("func ".toList ++ dec ps.length ++ ' ' :: dec rs.length ++ ' ' :: boolStr v ++ '\n' ::
+    litFunc ++
+      hc (litFuncHdr ++ dec ps.length ++ ' ' :: dec rs.length ++ ' ' :: boolStr v ++ '\n' ::
           (tupleC hc ps ++ tupleC hc rs))
   | .iface ms =>
-    if ms.isNil then "_llgo_any".toList
+    if ms.isNil then litAny
     else
-      let h := hc ("interface ".toList ++ dec ms.length ++ '\n' :: methodsC hc ms)
+      let h := hc (litIfaceHdr ++ dec ms.length ++ '\n' :: methodsC hc ms)
       let pkg := firstPkgM ms
-      if pkg = [] then "_llgo_iface$".toList ++ h else pkg ++ ".iface$".toList ++ h
+      if pkg = [] then litIface ++ h else pkg ++ (litIfaceP ++ h)
   | .struct fs =>
     if pub && isClosure fs then field0C hc fs
     else
-      let h := hc ("struct ".toList ++ dec fs.length ++ '\n' :: fieldsC hc fs)
+      let h := hc (litStructHdr ++ dec fs.length ++ '\n' :: fieldsC hc fs)
       let pkg := firstPkgF fs
-      if isClosure fs then "_llgo_closure$".toList ++ h
-      else if pkg = [] then "_llgo_struct$".toList ++ h
-      else pkg ++ ".struct$".toList ++ h
+      if isClosure fs then litClosure ++ h
+      else if pkg = [] then litStruct ++ h
+      else pkg ++ (litStructP ++ h)
 /-- name of the first field's type (`PublicType` of a closure struct) -/
 def field0C (hc : Str → Str) : FList → Str
   | .nil => []
